@@ -216,6 +216,12 @@ pub fn solve<F: Function>(
         cur[*i] = f;
     }
 
+    // With no free variables, there's nothing to solve for (and evaluation
+    // below assumes at least one gradient sample per tape)
+    if cur.is_empty() {
+        return Ok(HashMap::new());
+    }
+
     // Working arrays for the current Jacobian and result
     let mut jacobian = nalgebra::DMatrix::repeat(tapes.len(), cur.len(), 0f32);
     let mut result = nalgebra::DVector::repeat(tapes.len(), 0f32);
